@@ -41,7 +41,7 @@ theorem serverBranch_done (P : Parsers ρ σ) (flow : TcpFlow) (seg : Seg) (h : 
 theorem clientBranch_report (P : Parsers ρ σ) (flow : TcpFlow) (seg : Seg) (r : ρ)
     (h : (clientBranch P flow seg).2 = some r) :
     flow.clientParsed = false ∧ (clientBranch P flow seg).1.clientParsed = true ∧
-    P.request (fullData (flow.clientData ++ [seg])) = some r := by
+    P.request (fullData (some flow.clientIsn) (flow.clientData ++ [seg])) = some r := by
   have h0 := h
   unfold clientBranch at h0
   split at h0
@@ -65,7 +65,7 @@ theorem clientBranch_report (P : Parsers ρ σ) (flow : TcpFlow) (seg : Seg) (r 
 theorem serverBranch_report (P : Parsers ρ σ) (flow : TcpFlow) (seg : Seg) (r : σ)
     (h : (serverBranch P flow seg).2 = some r) :
     flow.serverParsed = false ∧ (serverBranch P flow seg).1.serverParsed = true ∧
-    P.response (fullData (flow.serverData ++ [seg])) = some r := by
+    P.response (fullData flow.serverIsn (flow.serverData ++ [seg])) = some r := by
   have h0 := h
   unfold serverBranch at h0
   split at h0
@@ -92,7 +92,7 @@ theorem dispatch_request (P : Parsers ρ σ) (flow : TcpFlow) (ic : Bool) (p : P
     (h : (dispatch P flow ic p).2.1 = some r) :
     ic = true ∧ flow.clientParsed = false ∧ (dispatch P flow ic p).1.clientParsed = true ∧
     (dispatch P flow ic p).2.2 = none ∧
-    P.request (fullData (flow.clientData ++ [⟨p.seq, p.payload⟩])) = some r := by
+    P.request (fullData (some flow.clientIsn) (flow.clientData ++ [⟨p.seq, p.payload⟩])) = some r := by
   unfold dispatch at h ⊢
   split at h
   · rename_i hc
@@ -109,7 +109,7 @@ theorem dispatch_response (P : Parsers ρ σ) (flow : TcpFlow) (ic : Bool) (p : 
     flow.serverParsed = false ∧ (dispatch P flow ic p).1.serverParsed = true ∧
     (dispatch P flow ic p).2.1 = none ∧
     ¬ (ic = true ∧ p.srcIp = flow.clientIp ∧ p.srcPort = flow.clientPort) ∧
-    P.response (fullData (flow.serverData ++ [⟨p.seq, p.payload⟩])) = some r := by
+    P.response (fullData flow.serverIsn (flow.serverData ++ [⟨p.seq, p.payload⟩])) = some r := by
   unfold dispatch at h ⊢
   split at h
   · simp at h
@@ -154,5 +154,18 @@ theorem dispatch_endpoints (P : Parsers ρ σ) (flow : TcpFlow) (ic : Bool) (p :
   · split
     · simp [b]
     · simp
+
+/-! ### the SYN-ACK note -/
+
+theorem noteSynAck_client (f : TcpFlow) (p : Pkt) : noteSynAck f true p = f := by
+  unfold noteSynAck; simp
+
+theorem noteSynAck_fields (f : TcpFlow) (ic : Bool) (p : Pkt) :
+    (noteSynAck f ic p).clientParsed = f.clientParsed ∧ (noteSynAck f ic p).serverParsed = f.serverParsed ∧
+    (noteSynAck f ic p).clientData = f.clientData ∧ (noteSynAck f ic p).serverData = f.serverData ∧
+    (noteSynAck f ic p).clientIp = f.clientIp ∧ (noteSynAck f ic p).serverIp = f.serverIp ∧
+    (noteSynAck f ic p).clientPort = f.clientPort ∧ (noteSynAck f ic p).serverPort = f.serverPort ∧
+    (noteSynAck f ic p).clientIsn = f.clientIsn := by
+  unfold noteSynAck; split <;> simp
 
 end Huginn.HttpFlow
